@@ -36,6 +36,7 @@ const (
 	annPreferRsvd   = "prefer-reserved-cpus." + annNS
 	annHideHT       = "hide-hyperthreads." + annNS
 	annMemType      = "memory-type." + annNS
+	annColdStart    = "cold-start." + annNS
 	annBalloon      = "balloon.balloons." + annNS
 )
 
